@@ -160,6 +160,13 @@ class Gen:
     # ---- one header text
     def header(self, kind):
         r = self.r
+        # the very same text again (a client reuses its token; also after password changes, restarts, clock moves)
+        prev = [st[1] for st in self.case['steps'] if st[0] == kind and st[1]]
+        if prev and r.random() < 0.14:
+            text = r.choice(prev[-12:])
+            if not k_potential(text, kind, self.now, self.keys, self.case, self.c):
+                self.tags.add('replayed-text')
+                return text
         x = r.random()
         if x < 0.04:
             return None
